@@ -355,6 +355,20 @@ class RelayMode(vlib.Mode):
                                    "/session/{t}.x", "/session/{t}/{t}", "/shell/{t}", "/Session/{t}", "/session/{t}", "/session/{t}/more"])
                 case.append(f"ws {hx(tmpl.format(t=t))} c{len(st['codes']) - 1}")
             case.append("members")
+        if rng.random() < 0.25:
+            # an admin request whose token lacks one registered claim COMBINED with each kind of bound parameter (expiry in the past, now,
+            # in the future; booking id present / empty): every branch of the handlers is reached with every shape of token
+            now = st["now"]
+            for _ in range(rng.choice([2, 3, 4])):
+                cred = rng.choice([admin(iat="a"), admin(nbf="a"), admin(iat="a", nbf="a"), admin(), admin(exp="a"), admin(iat=f"i{now + 50}")])
+                verb = rng.choice(["deny", "allow"])
+                bid = rng.choice([sval(rng.choice(BIDS)), sval(rng.choice(BIDS)), "s-", "a"])
+                exp = rng.choice([sval(str(now - 1)), sval(str(now - 1000)), sval(str(now)), sval(str(now + 500)), "a",
+                                  # far-away instants: differences that overflow when turned into nanoseconds, the ends of int64
+                                  sval(str(now - 9223372037)), sval(str(now - 9223372036)), sval("-9223372036854775808"), sval(str(now - 18446744074)),
+                                  sval("9223372036854775807"), sval(str(now + 9223372037))])
+                case.append(f"{verb} {cred} {bid} {exp}")
+                case.append("sync")
         if rng.random() < 0.3:
             # scope names that differ from `read` / `write` by letter case, blanks or plural only: they carry no capability
             now = st["now"]
